@@ -54,6 +54,12 @@ fn main() {
         }
         ("C01", None) => checks::c01::run(&ctx),
         ("C01", Some(r)) => checks::c01::replay(&ctx, &r["case"]),
+        ("C03", None) => checks::c03::run(&ctx),
+        ("C03", Some(r)) => checks::c03::replay(&ctx, &r["case"]),
+        ("C03DBG", _) => {
+            checks::c03::debug(&args);
+            std::process::exit(0);
+        }
         ("C02", None) => checks::c02::run(&ctx),
         ("C02", Some(r)) => checks::c02::replay(&ctx, &r["case"]),
         ("C02DBG", _) => {
